@@ -146,7 +146,7 @@ pub fn compare_cell<M: ConvexCellMarker + 'static>(c: &Case, cell: &ConvexCell<M
     }
     if tolv < 0.125 * r.volume {
         let tolc = VAR_FACTOR * b.var_centroid + 2. * b.r3 * tolv / r.volume + eps;
-        let dc = vc.centroid.distance(r.centroid);
+        let dc = tol::active_distance(c, vc.centroid, r.centroid);
         cs.max("centroid_diff_over_tol", dc / tolc);
         if dc > tolc {
             return Err(format!("cell {i}: centroid {:?} differs from the brute-force centroid {:?} by {:e} > tol {:e}", vc.centroid, r.centroid, dc, tolc));
